@@ -286,6 +286,9 @@ func lifeDriver(a *Args) {
 		}
 	}
 	sigs = append(sigs, sigCase{"backend-list-returns", syscall.SIGINT, 2500, 700}, sigCase{"backend-list-returns", syscall.SIGTERM, 2500, 700})
+	// a signal while the agent still waits for its first healthy check (SIGTERM only: whether SIGINT is ignored
+	// before the handler exists depends on the disposition the process inherited)
+	sigs = append(sigs, sigCase{"before-healthy", syscall.SIGTERM, 0, 0}, sigCase{"before-healthy", syscall.SIGTERM, 1000, 0})
 	sigs = append(sigs, sigCase{"idle", syscall.SIGTERM, 0, 0}, sigCase{"backend", syscall.SIGINT, 0, 600}, sigCase{"backend", syscall.SIGTERM, 1000, 3000})
 	if hx.Thorough() {
 		for _, place := range []string{"idle", "listed", "backend"} {
@@ -487,7 +490,7 @@ func signalScenario(res *hx.Result, place string, sig syscall.Signal, graceMs, l
 	case <-time.After(time.Duration(graceMs)*time.Millisecond + 6*time.Second):
 	}
 	if ex, code := agent.Exited(); ex {
-		tr.Emit("Exit", "code", code, "after_ms", time.Since(sent).Milliseconds())
+		tr.Emit("Exit", "code", code, "after_ms", time.Since(sent).Milliseconds(), "early", place == "before-healthy")
 	} else {
 		tr.Emit("StillAlive")
 	}
